@@ -23,11 +23,13 @@ Types == {"str", "bool", "int", "float"}
 
 Init == /\ Start("opt", 0, FALSE, "none")      \* the constructor machine is idle here
         /\ \/ /\ Part = "names"
-              /\ \E role \in {"long", "short", "arg"}, p \in Prefixes, n \in Names :
+              /\ \E role \in {"long", "short", "arg", "alias"}, p \in Prefixes, n \in Names :
                 case = [part |-> "names", role |-> role, name |-> p \o n,
                         ok |-> CASE role = "long" -> LongNameOK(p \o n)
                                  [] role = "short" -> ShortNameOK(p \o n)
-                                 [] role = "arg" -> ArgNameWellFormed(p \o n)]
+                                 [] role = "arg" -> ArgNameWellFormed(p \o n)
+                                 [] role = "alias" -> AliasMust(p \o n),
+                        may |-> IF role = "alias" THEN AliasMay(p \o n) ELSE FALSE]
            \/ /\ Part = "conv"
               /\ \E ty \in Types, nl \in BOOLEAN, isNone \in BOOLEAN, t \in Pool \cup Short3 :
                 /\ (isNone => t = <<>>)
